@@ -111,6 +111,6 @@ Example C05_example_weighted :
   frag2 ex3_flat = true /\ frag1 ex3_flat = false /\ enumerates_b ex3_flat = true /\ length (accepted_keys ex3_flat) = 32 /\
   length (all_valid (code_sem ex3_flat)) = 32 /\ check_inj ex3_flat = true /\ check_complete ex3_flat = true.
 Proof.
-  split; [apply ex3_frag|]. split; [apply ex3_frag|]. split; [apply ex3_frag|]. split; [apply ex3_keys|]. split; [apply ex3_keys|].
-  split; apply ex3_checks.
+  split; [exact ex3_frag2|]. split; [exact ex3_frag1|]. split; [exact ex3_enum|]. split; [exact ex3_nacc|]. split; [exact ex3_nvalid|].
+  split; [exact ex3_inj | exact ex3_complete].
 Qed.
